@@ -340,22 +340,48 @@ Proof.
 Qed.
 
 (* ---- the single-rename theorems ------------------------------------------------------------------------ *)
+(* The name `group` matters only for a column that carries the group formula (a reference list computed by
+   table.getSummarySourceGroup): such a column of T may be renamed a -> b only if neither name is `group`.
+   Any other column may be renamed from or to `group`. *)
+Definition group_ok (d : doc) (T a b : name) : Prop :=
+  forall tb co, In tb d -> In co (tcols tb) -> is_grp co = true -> tname tb = T ->
+    (cname co = a \/ cname co = b) -> a <> GROUP /\ b <> GROUP.
+
+Lemma group_ok_of_neq : forall d T a b, a <> GROUP -> b <> GROUP -> group_ok d T a b.
+Proof. intros d T a b Ha Hb tb co _ _ _ _ _. split; assumption. Qed.
+
+Lemma group_ok_stable : forall d T a b, group_ok d T a b ->
+  forall tb co, In tb d -> In co (tcols tb) -> is_grp co = true ->
+    name_eqb (colS T a b (tname tb) (cname co)) GROUP = name_eqb (cname co) GROUP.
+Proof.
+  intros d T a b Hgo tb co Htb Hco Hg.
+  destruct (name_eqb (tname tb) T) eqn:Et; [|unfold colS; rewrite Et; reflexivity].
+  pose proof (proj1 (name_eqb_eq _ _) Et) as ET.
+  destruct (name_eqb (cname co) a) eqn:Ea.
+  - destruct (Hgo tb co Htb Hco Hg ET (or_introl (proj1 (name_eqb_eq _ _) Ea))) as [Ha Hb].
+    apply colS_group; assumption.
+  - destruct (name_eqb (cname co) b) eqn:Eb.
+    + destruct (Hgo tb co Htb Hco Hg ET (or_intror (proj1 (name_eqb_eq _ _) Eb))) as [Ha Hb].
+      apply colS_group; assumption.
+    + unfold colS, swap. rewrite Et, Ea, Eb. reflexivity.
+Qed.
+
 Theorem rename_column_preserves_eval_proof : forall prim1 prim2 fuel d T a b self row f,
   doc_wf d -> wf_static d self [] f = true ->
-  a <> GROUP -> b <> GROUP ->
+  group_ok d T a b ->
   fresh_col d T b -> ~ In (T, b) (col_uses d self [] f) ->
   eval_formula prim1 prim2 fuel (rename_doc id_tab (col1 T a b) d) self row (ren id_tab (col1 T a b) d self [] f)
   = eval_formula prim1 prim2 fuel d self row f.
 Proof.
-  intros prim1 prim2 fuel d T a b self row f Hd Hf Ha Hb Hfr Hnf.
+  intros prim1 prim2 fuel d T a b self row f Hd Hf Hgo Hfr Hnf.
   rewrite (rename_doc_ext _ _ _ _ d (fresh_col_agree d T a b Hfr)). rewrite (ren_col1_colS d T a b self [] f Hnf).
   rewrite <- (rn_res_id (eval_formula prim1 prim2 fuel d self row f)).
   apply (eval_formula_rn id_tab (colS T a b) prim1 prim2); try assumption.
   - reflexivity.
   - apply colS_inj.
-  - apply colS_group; assumption.
   - intros g v. rewrite rn_val_id, rn_res_id. reflexivity.
   - intros g x y. rewrite !rn_val_id, rn_res_id. reflexivity.
+  - apply group_ok_stable. exact Hgo.
 Qed.
 
 Theorem rename_table_preserves_eval_proof : forall prim1 prim2 fuel d a b self row f,
